@@ -5,6 +5,7 @@ import openmdao.utils.relevance as REL
 
 from progfam.library import LIBRARY, T, q22, q2s, q32
 from progfam.core import Prog, In
+from checks.C03 import h_problem_multi      # noqa: F401  (harness reused: colored totals with irrelevant components)
 
 LEVEL = 'model_checking'
 EXPLANATION = ('Differential symbolic run of the real framework: the same program (with dead branches, responses that do not depend '
@@ -74,6 +75,13 @@ def harnesses(tier, seed):
             jobs.append(dict(fn='h_diff', params=dict(prog=prog, mode=mode, solver='runonce', approx=grp, order='narrow_first')))
     for prog in PROGS:
         jobs.append(dict(fn='h_diff', params=dict(prog=prog, mode='fwd' if q else 'rev', solver='runonce', order='narrow_first')))
+    for prog in PROGS:
+        for mode in ('fwd', 'rev'):
+            for solver in (('runonce',) if q else ('runonce', 'lnbgs')):
+                jobs.append(dict(fn='h_diff', params=dict(prog=prog, mode=mode, solver=solver, cache=True)))
+    # colored totals (bidirectional coloring: while a reverse color of one component's rows is solved the others are irrelevant)
+    for kind in ('auto', 'bidir_subst'):
+        jobs.append(dict(fn='h_problem_multi', params=dict(kind=kind, mode='auto', N=8)))
     if not q:
         for prog in ('basic', 'idx_flat', 'auto_units', 'promote_chain', 'ratio'):
             for mode in ('fwd', 'rev'):
@@ -85,7 +93,7 @@ def _make(prog):
     return PROGS[prog]() if prog in PROGS else LIBRARY[prog]()
 
 
-def _run(ctx, prog, mode, solver, no_rel, vals=None, approx=None, order='all_first'):
+def _run(ctx, prog, mode, solver, no_rel, vals=None, approx=None, order='all_first', cache=False):
     old = REL._no_relevance
     REL._no_relevance = no_rel
     try:
@@ -94,6 +102,9 @@ def _run(ctx, prog, mode, solver, no_rel, vals=None, approx=None, order='all_fir
             P.desvars = [(w, {}) for w in P.wrts]
             P.responses = [(o, {}, 'obj' if k == 0 else 'con') for k, o in enumerate(P.ofs)]
             P.responses = [(o, kw if kind == 'obj' else dict(upper=0.0), kind) for o, kw, kind in P.responses]
+        if cache:       # linear solutions cached per design variable (fwd) / response (rev) and reused as initial guesses
+            P.desvars = [(n, dict(kw, cache_linear_solution=True)) for n, kw in P.desvars]
+            P.responses = [(n, dict(kw, cache_linear_solution=True), kind) for n, kw, kind in P.responses]
         if solver != 'runonce':
             for g in {it[1] for it in P.items if it[0] == 'comp' and it[1]} | {''}:
                 P.group_opts.setdefault(g, {})['linear_solver'] = SOLVERS[solver]
@@ -133,9 +144,9 @@ def _run(ctx, prog, mode, solver, no_rel, vals=None, approx=None, order='all_fir
         REL._no_relevance = old
 
 
-def h_diff(ctx, prog, mode, solver, approx=None, order='all_first'):
-    on, vals, P = _run(ctx, prog, mode, solver, False, approx=approx, order=order)
-    off, _, _ = _run(ctx, prog, mode, solver, True, vals, approx=approx, order=order)
+def h_diff(ctx, prog, mode, solver, approx=None, order='all_first', cache=False):
+    on, vals, P = _run(ctx, prog, mode, solver, False, approx=approx, order=order, cache=cache)
+    off, _, _ = _run(ctx, prog, mode, solver, True, vals, approx=approx, order=order, cache=cache)
     tol = 1e-9 if P.uses_units() else 0
     for key in on:
         a, b = on[key], off[key]
